@@ -216,7 +216,18 @@ def run_interval(prop, tier, seed, ctx):
         for l in rec.splitlines():
             # non-trivial: at least two subscriptions interleaved, or a disposal followed by a later tick
             toks = l.split("|")[0].split()
-            if len({t[1] for t in toks if t[0] == "S"}) >= 2 or any(t[0] == "Q" or t.endswith("q") for t in toks[:-1]):
+            # non-trivial: a disposal of subscription j followed by a later tick of the same j (the silence clause is exercised),
+            # or ticks of two different subscriptions interleaved (the independence clause is exercised)
+            disposed, later_tick = set(), False
+            for t in toks:
+                j = "".join(ch for ch in t[1:] if ch.isdigit())
+                if t[0] == "T" and j in disposed:
+                    later_tick = True
+                if t[0] == "Q" or t.endswith("q"):
+                    disposed.add(j)
+            ticks = [("".join(ch for ch in t[1:] if ch.isdigit())) for t in toks if t[0] == "T"]
+            alternating = any(ticks[i] != ticks[i + 1] for i in range(len(ticks) - 1))
+            if later_tick or alternating:
                 nontrivial += 1
         for l in judged.splitlines():
             if l.startswith("MISMATCH "):
@@ -230,7 +241,7 @@ def run_interval(prop, tier, seed, ctx):
         res["coverage"]["samples"] = [dict(run=l) for l in outs[0][0].splitlines()[-2:]]
     res["coverage"]["rule"] = ("interval under a mock Nurse+Timer with a virtual clock: every script of subscriptions (spawn ok/Spawn/Closed), timer "
                                "expiries, disposals at top level and from inside the data handler, up to the tier's length for <= 2 (3) subscriptions, "
-                               "+ seeded random scripts up to 40 events, 4 subscriptions; non-trivial = >= 2 subscriptions or a disposal followed by later events")
+                               "+ seeded random scripts up to 40 events, 4 subscriptions; non-trivial = a disposal followed by a later tick of the same subscription, or ticks of different subscriptions alternating")
     return res
 
 
